@@ -51,10 +51,7 @@ F = [
  known('C16', 'C16.3', 'address:MinHexPrettyPrinter.pretty_print',
        'the compact hex format derives positions from emission order; addresses are written only at .org lines', 'same program, -t minhex', ':01 03 (03 shown at offset 1)', '03 at address 2',
        'the minhex format has no address records for gaps; changing it changes the format'),
- known('C18', 'C18.2', 'space:directive-prefixes',
-       "preprocessor directive dispatch tests literal-space prefixes ('#if ', '#define ', ...): a TAB after the keyword is not accepted",
-       '#if<TAB>1 / #define<TAB>FOO 5', 'unknown instruction', 'accepted like a space',
-       'touches every directive dispatch site (factory, condition line, patterns); a syntax policy decision'),
+ fixed('C18', 'C18.2', 'space:directive-keyword-normalised', 'ecd6ff9', "directive dispatch tests literal-space prefixes ('#if ', '#define ', ...): a TAB after the keyword was not accepted", '#if<TAB>1 / #define<TAB>FOO 5', 'unknown instruction', 'accepted like a space'),
 ]
 json.dump({'findings': F}, open(os.path.join(HERE, 'known_findings.json'), 'w'), indent=1)
 print(len(F), 'entries')
